@@ -108,4 +108,41 @@ candidate whose filter matches, else the main pool. -/
 def proxyHandle (mirror : Option (Nat × Bool)) (main : Nat × Bool) (cands : List (Nat × Bool)) : Bool × Nat :=
   ((mirror.map (·.2)).getD false, ((cands.find? (·.2)).getD main).1)
 
+/-! ### Lifecycles of gzip compress readers (`pkg/util/readers/gzipcompressreader.go`)
+
+Every compressed response body is a `GZipCompressReader`; the proxy closes it more than once (`buildResponse` after
+`FetchPayload`, `Response.Close` at `ctx.Finish()`, the transport's wrapper). Readers are numbered in creation order;
+a gzip writer is identified by a number too. `pooled = false` is the code: `NewGZipCompressReader` makes a **new**
+writer (`gzip.NewWriter(buff)` over a buffer it just allocated) and `Close` touches no writer, so it may be called
+any number of times. `pooled = true` (the seeded defect C03-m5, counterexample only) takes the writer from a pool
+and `Close` puts it back — every time it is called. -/
+
+inductive GzOp
+  | new                 -- NewGZipCompressReader: the next reader
+  | close (rid : Nat)   -- Close of reader `rid` (any number of times, any order)
+deriving Repr, DecidableEq
+
+structure GzState where
+  nextWriter : Nat := 0
+  pool : List Nat := []
+  /-- writer of reader 0, 1, 2 … (creation order) -/
+  writers : List Nat := []
+deriving Repr, DecidableEq
+
+def gzStep (pooled : Bool) (s : GzState) : GzOp → GzState
+  | .new =>
+    if pooled then
+      match s.pool with
+      | w :: rest => { s with pool := rest, writers := s.writers ++ [w] }
+      | [] => { s with nextWriter := s.nextWriter + 1, writers := s.writers ++ [s.nextWriter] }
+    else { s with nextWriter := s.nextWriter + 1, writers := s.writers ++ [s.nextWriter] }
+  | .close rid =>
+    if pooled then
+      match s.writers[rid]? with
+      | some w => { s with pool := w :: s.pool }
+      | none => s
+    else s
+
+def gzRun (pooled : Bool) (ops : List GzOp) : GzState := ops.foldl (gzStep pooled) {}
+
 end EgVerif.Proxy
